@@ -169,6 +169,32 @@ type recvSide struct {
 	Dom                              *vfs.Domain
 	doms                             []*vfs.Domain
 	seq                              int
+	deadCh                           chan struct{} // closed when the current instance is crashed
+}
+
+// serverCall runs fn (receiver-side work of one request) in a handler goroutine
+// of its own, as a real server does; if the receiver instance dies meanwhile the
+// caller sees a broken connection (died=true) while the handler stays parked.
+func serverCall[T any](r *recvSide, fn func() T) (res T, died bool) {
+	deadCh := r.deadCh
+	select {
+	case <-deadCh:
+		return res, true
+	default:
+	}
+	ch := make(chan T, 1)
+	go func() { ch <- fn() }()
+	select {
+	case res = <-ch:
+		select {
+		case <-deadCh:
+			return res, true // died while answering: the answer is lost
+		default:
+		}
+		return res, false
+	case <-deadCh:
+		return res, true
+	}
 }
 
 func newRecvSide(base string, consume bool) *recvSide {
@@ -191,6 +217,7 @@ func (r *recvSide) setDirs() {
 // boot creates a Stage instance over the current directories
 func (r *recvSide) boot(consume bool) {
 	r.Dom = &vfs.Domain{Root: r.Root + string(os.PathSeparator)}
+	r.deadCh = make(chan struct{})
 	vfs.Register(r.Dom)
 	r.doms = append(r.doms, r.Dom)
 	dom := r.Dom
@@ -203,15 +230,16 @@ func (r *recvSide) boot(consume bool) {
 // crash parks the instance: every later vfs call, log write and dispatch of this
 // instance blocks forever; nothing more reaches the disk through them.
 func (r *recvSide) crash() {
-	r.Dom.Kill()
+	if !r.Dom.Dead() {
+		r.Dom.Kill()
+		close(r.deadCh)
+	}
 }
 
 // reboot = new process over the same data: the tree moves to the next
 // generation's name and a new Stage is created there (Recover is the caller's job)
 func (r *recvSide) reboot(consume bool) {
-	if !r.Dom.Dead() {
-		r.Dom.Kill()
-	}
+	r.crash()
 	old := r.Root
 	r.Gen++
 	r.setDirs()
